@@ -93,10 +93,16 @@ def model_correspondence(ctx, results):
             continue
         after = dict((a["chan"], a) for a in r["after_first"])
         outdated = set(c for (n, c, why) in r["closed"] if n == r["crash"] and why == "OutdatedChannelManager")
+        closed_live = set(d["chan"] for d in r.get("disk", []) if not d.get("open_at_crash", True))
         for s in r["snap"]:
             if s["mgr_latest"] < 0 or s["chan"] not in after:
                 continue
-            cases.append((ti, s, after[s["chan"]], s["chan"] in outdated))
+            if s["chan"] in closed_live and s["mgr_latest"] >= s["mon"]:
+                # force-closed by the live node after the snapshot: the close dropped blocked updates and reused their
+                # ids, staleness is then decided by the commitment numbers, which the harness does not observe
+                continue
+            # (closed after the FIRST reload: a second crash on the same bytes may find further channels stale)
+            cases.append((ti, s, after[s["chan"]], s["chan"] in outdated and not after[s["chan"]]["open"]))
     if not cases:
         return []
     exprs = []
